@@ -6,6 +6,9 @@ Case kinds (first token):
   dt  drop tracker (ceiling): canAccept/record sequence
   ch  sampler chain: eval (sdk.EvaluateChain via sdktest.RunChain) or exec (mergeChain.Execute)
   tb  table level: real trace tsTable without loops; writes, flushes, merges with an injected sampler
+  sp  searchPBM as a pure function on a primary-block index (first ids, duplicates across blocks)
+  pb  partIter over a real part written through the block writer with primary blocks cut where the
+      case says (a trace straddling primary-block boundaries without multi-megabyte payloads)
 """
 import collections
 import os
@@ -184,6 +187,44 @@ def gen_chain(rng):
     return "ch %d exec %d %d %s" % (n, rng.choice([0, 1, 2, 3]), rng.choice([1, 2, 4]), ";".join(specs) or "-")
 
 
+def gen_search(rng):
+    n = rng.choice([1, 1, 2, 3, 4, 6])
+    ids, cur = [], rng.randint(1, 5)
+    for _ in range(n):
+        ids.append(cur)
+        cur += rng.choice([0, 0, 1, 2, 5])          # duplicates across consecutive primary blocks
+    pool = set(ids) | {i + 1 for i in ids} | {i - 1 for i in ids} | {0, ids[-1] + 7}
+    tid = rng.choice(sorted(x for x in pool if x >= 0))
+    return "sp %d %s" % (tid, ",".join(map(str, ids)))
+
+
+def gen_part_layouts(rng):
+    """one part as primary blocks of physical blocks; a trace may occupy several physical blocks and
+    straddle primary-block boundaries (first id of block j == last id of block j-1); queried by
+    single ids (present, absent, boundary) and by id lists"""
+    npb = rng.choice([1, 2, 2, 3, 3, 4])
+    cur = rng.randint(1, 4)
+    layout = []
+    for j in range(npb):
+        pb = []
+        for k in range(rng.choice([1, 1, 2, 3, 4])):
+            if not (k == 0 and j > 0 and rng.random() < 0.6):   # else: straddle, same id continues
+                cur += 0 if (pb and rng.random() < 0.3) else rng.choice([1, 1, 2, 3])
+            pb.append("%d:%d" % (cur, rng.choice([1, 1, 2, 3])))
+        layout.append(",".join(pb))
+    lay = "|".join(layout)
+    present = sorted({int(b.split(":")[0]) for pb in layout for b in pb.split(",")})
+    out = []
+    for t in present:
+        out.append("pb %d %s" % (t, lay))
+    universe = sorted(set(present) | {present[0] - 1, present[-1] + 1} | {t + 1 for t in present})
+    universe = [u for u in universe if u >= 0]
+    for _ in range(2):
+        q = sorted(rng.sample(universe, rng.randint(1, len(universe))))
+        out.append("pb %s %s" % (",".join(map(str, q)), lay))
+    return out
+
+
 TIDS = ["a", "ab", "b", "c", "d", "e"]
 
 
@@ -333,7 +374,7 @@ class C13(vlib.Spec):
     prop = "C13"
     lean_modules = ["Banyan.Props.C13", "Banyan.Tie.C13"]
     theorems = ["Banyan.C13." + t for t in [
-        "trace_query_complete", "trace_query_exact", "trace_query_full_range", "exactFilter_noFalseNegatives",
+        "trace_query_complete", "searchPBM_spec", "trace_query_exact", "trace_query_full_range", "exactFilter_noFalseNegatives",
         "merge_no_sampler_lossless",
         "resolve_drop_sound", "resolve_keeps_otherwise", "resolve_cancelled_defers", "resolve_drop_no_outside_fragment",
         "revalidate_publish_sound",
@@ -385,7 +426,8 @@ class C13(vlib.Spec):
                 "gr:R0:filter_error", "gr:R0:budget_exhausted", "gr:R0:canceled", "gr:R0:segment_boundary",
                 "gr:V1:snapshot_delta_clear", "gr:V0:snapshot_delta_positive", "tb:trace-dropped-whole",
                 "tb:drop-vetoed-by-guard", "tb:lossless-retry-prevalidation", "tb:lossless-retry-introducer",
-                "tb:decide-error-or-panic", "tb:late-part-introduced", "ch:timeout", "ds:panic"]
+                "tb:decide-error-or-panic", "tb:late-part-introduced", "ch:timeout", "ds:panic",
+                "sp:boundary", "pb:trace-straddles-primary-blocks"]
         missing = [k for k in need if self.stats.get(k, 0) == 0]
         R.oblige("branch coverage of the generated cases (%d branch kinds)" % len(need), not missing,
                  "never exercised: %s" % missing)
@@ -397,6 +439,11 @@ class C13(vlib.Spec):
         out += [gen_dropset(rng) for _ in range(n * 10 // 100)]
         out += [gen_tracker(rng) for _ in range(n * 5 // 100)]
         out += [gen_chain(rng) for _ in range(n * 10 // 100)]
+        out += [gen_search(rng) for _ in range(n * 3 // 100)]
+        pbs = []
+        while len(pbs) < n * 8 // 100:
+            pbs += gen_part_layouts(rng)
+        out += pbs[:n * 8 // 100]
         tg = TableGen(rng)
         while len(out) < n:
             out.append(tg.case())
@@ -439,6 +486,35 @@ class C13(vlib.Spec):
             return self.oracle_chain(f, g)
         if f[0] == "tb":
             return self.oracle_table(line, f, g)
+        if f[0] == "sp":
+            ids = [int(x) for x in f[2].split(",")]
+            tid = int(f[1])
+            if tid < ids[0]:
+                return None if g == "PANIC" else ("violation", "searchPBM below the first id must hit the invariant panic")
+            if g == "PANIC":
+                return ("violation", "searchPBM panicked on a legal lookup")
+            r = int(g)
+            self.stats["sp:boundary" if (tid in ids[1:]) else "sp:other"] += 1
+            if not (0 <= r < len(ids)) or ids[r] > tid:
+                return ("violation", "searchPBM starts at block %d whose first id %s is above %d" % (r, ids[r:r + 1], tid))
+            if any(ids[k + 1] >= tid for k in range(r)):
+                return ("violation", "searchPBM(%d, %s) = %d skips a primary block that can contain the trace" % (tid, ids, r))
+            if r + 1 < len(ids) and ids[r + 1] < tid:
+                return ("violation", "searchPBM(%d, %s) = %d starts before the first block that can contain the trace" % (tid, ids, r))
+            return None
+        if f[0] == "pb":
+            if g.startswith("PANIC") or g.startswith("ERR"):
+                return ("violation", "reading a part by trace id failed: " + g[:200])
+            wanted = set(f[1].split(","))
+            pbs = [pb.split(",") for pb in f[2].split("|")]
+            want = [b for pb in pbs for b in pb if b.split(":")[0] in wanted]
+            got = g.split(",") if g != "-" else []
+            if any(pbs[j][0].split(":")[0] == pbs[j - 1][-1].split(":")[0] and pbs[j][0].split(":")[0] in wanted
+                   for j in range(1, len(pbs))):
+                self.stats["pb:trace-straddles-primary-blocks"] += 1
+            if got != want:
+                return ("violation", "reading the part by trace id returned blocks %s, the part holds %s for the wanted ids" % (got, want))
+            return None
         return None
 
     def oracle_guard(self, f, g):
